@@ -5,6 +5,7 @@ the arrays handed out AT RETURN TIME and the SAME OBJECTS at the end of the hist
 Falsifier: every response against a freshly built Data, earlier arrays and input arrays unchanged,
 two runs identical."""
 import itertools
+import os
 import math
 import random
 
@@ -194,6 +195,35 @@ def _explore(out, tier, seed, facts, replay):
         h = [rng.choice(m) for _ in range(6)]
         if repr(impl_history(ds, h)) != repr(impl_history(ds, h)):
             out.violation("not-repeatable", "the same history on the same files gave different results", {"dataset": ds, "history": h})
+    # ---- PIT with a discrete probability mass (variable attribute x0 / x1): values are randomised at load ----
+    import tempfile
+    import verif.input
+    import verif.field
+    tdir = tempfile.mkdtemp(prefix="verif_c18_", dir=os.environ.get("VERIF_SCRATCH") or None)
+    try:
+        fn = os.path.join(tdir, "precip.txt")
+        with open(fn, "w") as f:
+            f.write("# variable: Precip\n# units: mm\n# x0: 0\nunixtime leadtime location obs fcst pit\n")
+            for t in range(4):
+                for l in range(3):
+                    f.write("%d %d 1 %s 1.5 %s\n" % (1325376000 + 86400 * t, 6 * l, "0" if (t + l) % 2 == 0 else "2.5", repr(0.25 + 0.125 * l)))
+        pits = []
+        for _ in range(2):
+            inp = verif.input.get_input(fn)
+            raw = np.array(inp.pit, float).copy()
+            dd = verif.data.Data([inp])
+            pits.append(np.array(dd.get_scores(verif.field.Pit(), 0), float).flatten().tolist())
+            nf += 1
+            if not np.array_equal(np.array(inp.pit, float), raw, equal_nan=True):
+                out.violation("pit-randomize:input-modified", "with the variable attribute x0 set, loading the PIT field multiplies the INPUT's pit array in place "
+                              "by random factors (Pit.randomize: pit *= factor): the file's values %r became %r" % (raw.flatten().tolist()[:6], np.array(inp.pit).flatten().tolist()[:6]),
+                              {"file": open(fn).read()})
+        if pits[0] != pits[1]:
+            out.violation("pit-randomize:not-repeatable", "with the variable attribute x0 set, two freshly built datasets of the same file return different PIT values "
+                          "(np.random without a seed): %r vs %r" % (pits[0][:6], pits[1][:6]), {"file": open(fn).read()})
+    finally:
+        import shutil
+        shutil.rmtree(tdir, ignore_errors=True)
     # ---- tie: stateful model (repaired semantics: whole-array requests hand out copies) --------------
     exprs = ["run_history true %s %s %s" % (datagen.coq_config(ds["cfg"]), datagen.coq_list(datagen.coq_input(i) for i in ds["inputs"]),
                                             datagen.coq_requests(h)) for ds, h in cases]
